@@ -82,6 +82,27 @@ func (in *Interp) byteEq(a, b value) value {
 	if ac && bc {
 		return ai == bi
 	}
+	// known digit characters: compare digit values (keeps the query in LIA)
+	if as, ok := a.(*Sym); ok {
+		if da, ok := in.TC.DigitOf(as.T); ok {
+			switch bv := b.(type) {
+			case int64:
+				if bv < '0' || bv > '9' {
+					return false
+				}
+				return symOrBool(in.TC.Eq(da, IntConst(bv-'0')))
+			case *Sym:
+				if db, ok := in.TC.DigitOf(bv.T); ok {
+					return symOrBool(in.TC.Eq(da, db))
+				}
+			}
+		}
+	}
+	if bs, ok := b.(*Sym); ok && ac {
+		if _, ok := in.TC.DigitOf(bs.T); ok {
+			return in.byteEq(b, a)
+		}
+	}
 	return symOrBool(in.TC.Eq(in.toTerm(a, BV(8)), in.toTerm(b, BV(8))))
 }
 
@@ -196,6 +217,12 @@ func (in *Interp) encodeRuneSym(r *Sym, k types.BasicKind) value {
 	if r.T.Sort.K != SBV {
 		v := in.concretize(r, "rune to string").(int64)
 		return string(rune(v))
+	}
+	if d, ok := tc.DigitOf(r.T); ok {
+		// a known ASCII digit character: one byte, '0'+d
+		ch := tc.App(BV(8), "(_ int2bv 8)", tc.App(IntSort, "+", IntConst(48), d))
+		tc.MarkDigit(ch, d)
+		return &SymStr{E: []value{&Sym{T: ch}}}
 	}
 	w, signed := intInfo(k)
 	t := in.resize(r.T, 32, signed)
